@@ -214,10 +214,16 @@ SPECIAL = [b"\"", b",", b"\t", b"\r", b"\n", b"\x00", b"\xff", b"\xef\xbb\xbf", 
 
 
 def mutate(r, data):
-    kind = r.choice(["truncate", "flip", "overwrite", "insert", "delete", "duplicate", "overwrite", "insert"])
+    kind = r.choice(["truncate", "flip", "overwrite", "insert", "delete", "duplicate", "overwrite", "insert", "sepline"])
     if not data:
         return data + r.choice(SPECIAL), "insert@0"
     k = r.below(len(data))
+    if kind == "sepline":
+        # a line made of field separators only, with fewer, as many or more fields than its neighbours
+        line = r.choice([b",", b"\t", b" ", b";", b"|", b"=", b":"]) * r.choice([1, 2, 3, 4, 5, 8, 13])
+        pos = data.find(b"\n", k)
+        pos = len(data) if pos < 0 else pos + 1
+        return data[:pos] + line + r.choice([b"\n", b"\n", b"\r\n", b""]) + data[pos:], "sepline@%d %r" % (pos, line)
     if kind == "truncate":
         return data[:k], "truncate@%d" % k
     if kind == "flip":
@@ -321,8 +327,11 @@ def build_case(r, tier):
     faults = []
     if r.chance(0.25):
         faults = [{"kind": "read_err", "path": "in.dat" if r.chance(0.8) else "__stdin__", "at": r.below(max(1, len(data))), "errno": r.choice(["EIO", "EBADF"])}]
-    verbs = r.choice([["cat"], ["cat"], ["sort", "-f", "a"], ["put", "$z = NF"], ["unsparsify"], ["head", "-n", "2"], ["sec2gmt", "a"], ["stats1", "-a", "count,mode", "-f", "a"]])
-    if r.chance(0.35):
+    verbs = r.choice([["cat"], ["cat"], ["sort", "-f", "a"], ["put", "$z = NF"], ["unsparsify"], ["head", "-n", "2"], ["sec2gmt", "a"], ["stats1", "-a", "count,mode", "-f", "a"],
+                      ["skip-trivial-records"], ["cat", "then", "skip-trivial-records"]])  # the readers behave differently when skip-trivial-records is in the chain
+    if any("sepline" in m for m in muts) and r.chance(0.5):
+        verbs = r.choice([["skip-trivial-records"], ["skip-trivial-records", "then", "put", "$z = NF"], ["cat", "-n", "then", "skip-trivial-records"]])
+    elif r.chance(0.35):
         # whatever the (damaged) input turns into - missing fields, odd types, empty records - goes through verbs too:
         # a Go panic there is just as much "dying on some input"
         import gen
